@@ -69,7 +69,18 @@ func (a *aclTable) NewRPCACL(ctx context.Context) (subscribe.RPCACL, error) {
 	atomic.AddInt64(&a.newCalls, 1)
 	u := vlib.User(ctx)
 	if a.fails(u) {
-		atomic.AddInt64(&a.newFails, 1)
+		// The constructor may fail with any error value: a plain one, or one that
+		// already carries a gRPC status of its own (an auth backend that is down, a
+		// lookup that answered NotFound). Whatever it is, authorisation could not be
+		// established and the call is to be rejected as unauthenticated.
+		switch atomic.AddInt64(&a.newFails, 1) % 4 {
+		case 1:
+			return nil, status.Error(codes.Unavailable, "auth backend down for "+u)
+		case 2:
+			return nil, status.Error(codes.NotFound, "no such principal "+u)
+		case 3:
+			return nil, fmt.Errorf("looking up %s: %w", u, status.Error(codes.PermissionDenied, "directory refused"))
+		}
 		return nil, errors.New("no credentials for " + u)
 	}
 	// Two legal shapes of the per-RPC object: a pointer, and (every third call) a
